@@ -388,6 +388,30 @@ theorem built_trees_legal (toks : List Token) (d : Doc) (second : Bool) (h : fee
   · exact key _ _ h
   · exact key _ _ h
 
+/-- every tree the plain parser builds has the element shape of the serialiser's image: lower-case names,
+    void ⇒ self-closing, self-closing ⇒ no blocks -/
+theorem built_trees_wf (toks : List Token) (d : Doc) (second : Bool) (h : feedTokens toks = .doc d second) :
+    ∀ r, d.root = some r → r.WFN := by
+  have key : ∀ (l : List Token) (b : Bool), FeedResult.ofPass b (run BState.init l) = .doc d second →
+      ∀ r, d.root = some r → r.WFN := by
+    intro l b hl r hr
+    rw [run_eq] at hl
+    cases hrun : runT BState.init.tree l with
+    | ok s' =>
+      rw [hrun] at hl
+      simp only [Outcome.map, FeedResult.ofPass, FeedResult.doc.injEq] at hl
+      have hwf := finish_wfs s' (runT_wfs l _ s' TState.init_wfs hrun)
+      rw [← hl.1] at hr
+      exact hwf.2 r hr
+    | multipleRoot => rw [hrun] at hl; simp [Outcome.map, FeedResult.ofPass] at hl
+    | invalidClose => rw [hrun] at hl; simp [Outcome.map, FeedResult.ofPass] at hl
+    | missedClose => rw [hrun] at hl; simp [Outcome.map, FeedResult.ofPass] at hl
+    | invalidAttr => rw [hrun] at hl; simp [Outcome.map, FeedResult.ofPass] at hl
+  unfold feedTokens at h
+  split at h
+  · exact key _ _ h
+  · exact key _ _ h
+
 /-- … and so does the tree the round trip of C01 lands in (`reintake`), whatever the original stores held -/
 theorem reparsed_tree_legal (t : LNode) : t.toNode.reintake.LegalN := reintake_legalN _
 
@@ -616,6 +640,22 @@ theorem serialisation_validates_multi (ks : List LNode) (hwf : WFLL ks) (hleg : 
       · simp at e
   rw [foldl_stepD_id _ _ hno]
 
+/-- **C13d, closing sentence of the property, for parsed documents.** Take ANY token sequence `toks0`, however
+    badly nested; let the plain parser build its document in the first pass; present its root in lexical normal
+    form (`root.toNode`, every text block one text-like token).  Then the tokens `getHTML` writes for it are
+    accepted by the validating parser, which builds the same document as the plain parser: `WF` and `Legal` are
+    not assumed but derived from the builder (`built_trees_wf`, `built_trees_legal`). -/
+theorem serialisation_of_parsed_validates (toks0 : List Token) (d : Doc) (second : Bool)
+    (h : feedTokens toks0 = .doc d second)
+    (n : Str) (a : AttrState) (sc : Bool) (kids : List LNode)
+    (hroot : d.root = some (LNode.elem n a sc kids).toNode) (htl : (LNode.elem n a sc kids).TextLike) :
+    vFeedTokens (docToks d.doctype (.elem n a sc kids)) = feedTokens (docToks d.doctype (.elem n a sc kids)) ∧
+    vFeedTokens (docToks d.doctype (.elem n a sc kids))
+      = .doc ⟨(C01.doctypeToks d.doctype).foldl stepD none, some (LNode.elem n a sc kids).toNode.reintake⟩ false :=
+  serialisation_validates d.doctype n a sc kids
+    (wf_of_toNode _ htl (built_trees_wf toks0 d second h _ hroot))
+    (legal_of_toNode _ (built_trees_legal toks0 d second h _ hroot))
+
 /-- **C13d (text level, single root).** With the side condition of the lexer round trip (`ListOK`: every token
     in the serialiser's image and followed by something that keeps it a token of its own), the TEXT `getHTML`
     writes lexes to those tokens, and the validating parser accepts them and builds the plain parser's document. -/
@@ -735,6 +775,14 @@ example : ∃ toks, lexStrict "<!DOCTYPE html>\n<div id=\"a\" >x<br /><span /><p
     = "<!DOCTYPE html>\n<div id=\"a\" >x<br /><span /><p >&amp;</p></div>".toList := by decide
   rw [← e]
   exact h
+
+
+/-- a badly nested, unclosed token sequence: its parsed document (implicit closes made explicit) validates -/
+example : ∃ d, feedTokens [.start "DIV".toList [("ID".toList, some "a".toList), ("1bad".toList, none)],
+      .start "b".toList [], .data "x".toList, .start "br".toList [], .end_ "div".toList, .end_ "p".toList] = .doc d false ∧
+    d.root = some (LNode.elem "div".toList ⟨[("id".toList, some "a".toList)], [], []⟩ false
+      [.elem "b".toList AttrState.empty false [.tok (.data "x".toList), .elem "br".toList AttrState.empty true []]]).toNode :=
+  ⟨_, rfl, rfl⟩
 
 /-- a two-root forest (element, text, void element) takes the wrapper pass in both parsers -/
 def sampleForest : List LNode :=
